@@ -226,6 +226,11 @@ def walk(fn_text, params, enc):
         m = re.fullmatch(r"const (true|false)", tok)
         if m:
             return m.group(1), "bool"
+        m = re.fullmatch(r"const (?:core|std)::num::<impl (u\d+|usize)>::(MAX|MIN)", tok) or re.fullmatch(r"const (u\d+|usize)::(MAX|MIN)", tok)
+        if m:
+            ty = m.group(1)
+            w = width_of(ty)
+            return enc.const((1 << w) - 1 if m.group(2) == "MAX" else 0, w), ty
         raise Unsupported("operand " + tok)
 
     paths = []
@@ -302,7 +307,25 @@ def walk(fn_text, params, enc):
                 return run(m.group(1), env, path, depth + 1)
             m = re.fullmatch(r"switchInt\((.*)\) -> \[(.*)\];", ln)
             if m:
-                raise Unsupported("switchInt (branching kernels are not needed so far)")
+                x, tx = operand(m.group(1), env)
+                arms = [a.strip() for a in m.group(2).split(",")]
+                taken = []
+                import copy
+                for a in arms:
+                    k, tgt = [y.strip() for y in a.split(":")]
+                    if k == "otherwise":
+                        cond = "(and true " + " ".join(f"(not {c})" for c in taken) + ")"
+                    else:
+                        if tx == "bool":
+                            c = f"(not {x})" if int(k) == 0 else x
+                        else:
+                            c = f"(= {x} {enc.const(int(k), width_of(tx))})"
+                        taken.append(c)
+                        cond = c
+                    p2 = copy.deepcopy(path)
+                    p2.cond.append(cond)
+                    run(tgt, dict(env), p2, depth + 1)
+                return
             if ln == "return;":
                 path.ret = env.get("_0")
                 if not isinstance(path.ret, dict):
